@@ -5,7 +5,8 @@
 // directly (seven request kinds, any number outstanding at once); "conn" goes through
 // iscp.Conn (OpenDownstream / OpenUpstream / SendBaseTime) with the same scripted broker.
 // The broker answers in a scripted permutation with per-response marker strings, duplicates,
-// unknown / not-yet-issued ids, cancellations and wrong-typed responses (F15).
+// unknown / not-yet-issued ids, cancellations and wrong-typed responses (F15, repaired: the caller
+// gets a malformed-message error; a wrong-typed answer to the keepalive ping closes the connection).
 package main
 
 import (
@@ -71,7 +72,7 @@ type step struct {
 }
 
 type caseIn struct {
-	Mode  string `json:"mode"`           // wire | conn | pingcrash
+	Mode  string `json:"mode"`           // wire | conn | wrongpong (a wrong-typed answer to the keepalive ping; "pingcrash" in old replay files)
 	Ping  bool   `json:"ping"`           // background keepalive pings every millisecond
 	Slow  bool   `json:"slow,omitempty"` // the transport's Write returns 300us after it accepted the bytes (the answer can overtake the return)
 	Kinds []int  `json:"kinds"`
@@ -234,7 +235,7 @@ func (e *env) onMsg(m message.Message) {
 		e.send(&message.ConnectResponse{RequestID: message.RequestID(id), ProtocolVersion: "2.0.0", ResultCode: message.ResultCodeSucceeded, ResultString: "OK"})
 	case kPing:
 		e.npings++
-		if e.c.Mode == "pingcrash" {
+		if e.c.Mode == "wrongpong" {
 			e.log = append(e.log, ev{k: 'R', id: id, ty: kUpClose, m: 0}, ev{k: 'W', id: id})
 			e.send(response(kUpClose, id, 0))
 		} else {
@@ -370,7 +371,7 @@ func (e *env) startCaller(a api, t int) {
 				c.out.direct = fmt.Sprintf("caller %d (request id %d) was handed a response bearing request id %d", t, own, rid)
 			}
 		case stderrors.Is(err, ierrors.ErrMalformedMessage):
-			c.out = outcome{st: "WMalformed"} // not produced by the code as it is (F15); see Model/Correlate.v
+			c.out = outcome{st: "WMalformed"} // the response bearing its id had the wrong message type
 		case stderrors.Is(err, context.Canceled):
 			c.out = outcome{st: "WCancelled"}
 		case stderrors.Is(err, ierrors.ErrConnectionClosed) || stderrors.Is(err, transport.ErrAlreadyClosed):
@@ -481,10 +482,16 @@ func runCase(c *caseIn) (res result) {
 		a.close()
 		return
 	}
-	if c.Mode == "pingcrash" {
-		time.Sleep(300 * time.Millisecond) // the process is expected to die here
+	if c.Mode == "wrongpong" {
+		// the keepalive ping was answered with an UpstreamCloseResponse bearing its id: sendPing must
+		// return an error and keepAliveLoop must close the connection, as on a ping failure
+		select {
+		case <-a.(wireAPI).c.Closed():
+			res.direct = "closed"
+		case <-time.After(wd):
+			res.direct = "not-closed"
+		}
 		a.close()
-		res.direct = "harness: survived"
 		return
 	}
 
@@ -522,7 +529,7 @@ func runCase(c *caseIn) (res result) {
 			ty := cl.kind
 			if st.Op == "wrong" {
 				ty = st.Ty
-				res.sig = sigF15
+				res.special++
 			}
 			e.mu.Lock()
 			e.log = append(e.log, ev{k: 'R', id: cl.id, ty: ty, m: st.M}, ev{k: 'W', id: cl.id})
@@ -871,8 +878,8 @@ func genRandom(r *rng.R, mode string, ping bool, wrong bool) *caseIn {
 
 // ---------------------------------------------------------------- main
 
-func pingCrashChild() {
-	res := runCase(&caseIn{Mode: "pingcrash"})
+func wrongPongChild() {
+	res := runCase(&caseIn{Mode: "wrongpong"})
 	fmt.Println(res.direct)
 	os.Exit(0)
 }
@@ -887,8 +894,8 @@ func main() {
 	if v, err := strconv.Atoi(os.Getenv("VERIF_WD_MS")); err == nil && v > 0 {
 		wd = time.Duration(v) * time.Millisecond
 	}
-	if *child == "pingcrash" {
-		pingCrashChild()
+	if *child == "wrongpong" {
+		wrongPongChild()
 		return
 	}
 	w := coqfmt.NewWriter(*out, "C06", "From Iscp Require Import Model.Correlate.", "wire_case", "wire_judge", 80)
@@ -916,9 +923,9 @@ func main() {
 		}
 		jobs = append(jobs, job{&rf.Input, "replay", 0})
 	} else {
-		nrand, nping, nconn, nwrong := 300, 80, 80, 16
+		nrand, nping, nconn, nwrong := 300, 80, 80, 48
 		if *tier == "thorough" {
-			nrand, nping, nconn, nwrong = 2500, 600, 600, 120
+			nrand, nping, nconn, nwrong = 2500, 600, 600, 400
 		}
 		genExhaustive(add)
 		for i := 0; i < nrand; i++ {
@@ -937,7 +944,7 @@ func main() {
 			}
 			add(genRandom(r.Fork(), mode, false, true), "wrongtype")
 		}
-		add(&caseIn{Mode: "pingcrash"}, "wrongtype-ping-child")
+		add(&caseIn{Mode: "wrongpong"}, "wrongtype-pong")
 	}
 	results := make([]coqfmt.Case, len(jobs))
 	sem := make(chan struct{}, 8)
@@ -951,31 +958,43 @@ func main() {
 			defer func() { <-sem }()
 			var cs coqfmt.Case
 			if j.c.Mode == "pingcrash" {
-				// a wrong-typed answer to the library's own keepalive ping panics in a library goroutine:
-				// nothing can recover it, so it runs in a child process
-				cmd := exec.Command(os.Args[0], "-child", "pingcrash")
-				var eb bytes.Buffer
-				cmd.Stderr = &eb
+				j.c.Mode = "wrongpong"
+			}
+			if j.c.Mode == "wrongpong" {
+				// a wrong-typed answer to the library's own keepalive ping is handled in a library goroutine
+				// without recover (the former code panicked there and killed the process): the scenario runs
+				// in a child process so that a regression is reported instead of killing the harness
+				cmd := exec.Command(os.Args[0], "-child", "wrongpong")
+				var eb, ob bytes.Buffer
+				cmd.Stderr, cmd.Stdout = &eb, &ob
+				cmd.Env = os.Environ()
 				done := make(chan error, 1)
 				go func() { done <- cmd.Run() }()
 				var err error
 				select {
 				case err = <-done:
-				case <-time.After(20 * time.Second):
+				case <-time.After(20*time.Second + 2*wd):
 					cmd.Process.Kill()
 					err = fmt.Errorf("child timed out")
 				}
-				crashed := err != nil && strings.Contains(eb.String(), "interface conversion")
 				cs = coqfmt.Case{Input: j.c, Kind: j.kind, Seed: j.seed}
-				if crashed {
+				verdict := strings.TrimSpace(ob.String())
+				switch {
+				case err == nil && verdict == "closed":
+					// sendPing returned an error (nothing else makes keepAliveLoop close the connection while
+					// the link is up) and the process is alive
+					cs.Term = "mkWireCase [Issue 0; Issue 1; Respond 2 4 0; Wake 1] [0; 2] [None; Some WMalformed]"
+					cs.Observed = map[string]interface{}{"child": "survived", "connection": "closed by the keepalive loop"}
+				case err != nil && strings.Contains(eb.String(), "panic"):
 					first := strings.SplitN(eb.String(), "\n", 2)[0]
 					cs.Term = "mkWireCase [Issue 0; Issue 1; Respond 2 4 0; Wake 1] [0; 2] [None; Some WPanicked]"
-					cs.Direct = "child process died: " + first + " (UpstreamCloseResponse bearing the id of the keepalive Ping; keepAliveLoop has no recover)"
+					cs.Direct = "child process died: " + first + " (UpstreamCloseResponse bearing the id of the keepalive Ping)"
 					cs.Sig = sigF15
 					cs.Observed = map[string]interface{}{"child_stderr_first_line": first}
-				} else {
-					cs.Term = "mkWireCase [Issue 0; Issue 1; Respond 2 4 0; Wake 1] [0; 2] [None; None]"
-					cs.Observed = map[string]interface{}{"child": fmt.Sprint(err), "stderr": eb.String()}
+				default:
+					cs.Term = "mkWireCase [Issue 0; Issue 1; Respond 2 4 0; Wake 1] [0; 2] [None; Some WWaiting]"
+					cs.Direct = fmt.Sprintf("a wrong-typed answer to the keepalive ping did not close the connection within the watchdog (child: %v %q)", err, verdict)
+					cs.Observed = map[string]interface{}{"child": fmt.Sprint(err), "stdout": verdict, "stderr": eb.String()}
 				}
 			} else {
 				res := runCase(j.c)
@@ -1003,7 +1022,7 @@ func main() {
 			w.Count("sig:" + cs.Sig)
 		}
 	}
-	rule := "exhaustive: n<=4 concurrent requests of mixed kinds, every permutation of the answers x {plain, last-answered caller cancelled first with a late answer, every answer duplicated with another marker}; random: 5-16 concurrent requests (wire.ClientConn directly: upstream open/resume/close, downstream open/resume/close, metadata; through iscp.Conn: OpenDownstream xN + one OpenUpstream/SendBaseTime) issued in 1-3 groups, answers in random order with per-answer markers, duplicates of answered ids, odd / far / not-yet-issued ids, cancellations with and without a late answer, optionally keepalive pings every millisecond on the same id generator; wrongtype: answers of another message type bearing a pending id (F15). non-trivial = >=3 requests in flight at once and at least one cancellation or unknown id; distinct = distinct Coq case terms"
+	rule := "exhaustive: n<=4 concurrent requests of mixed kinds, every permutation of the answers x {plain, last-answered caller cancelled first with a late answer, every answer duplicated with another marker}; random: 5-16 concurrent requests (wire.ClientConn directly: upstream open/resume/close, downstream open/resume/close, metadata; through iscp.Conn: OpenDownstream xN + one OpenUpstream/SendBaseTime) issued in 1-3 groups, answers in random order with per-answer markers, duplicates of answered ids, odd / far / not-yet-issued ids, cancellations with and without a late answer, optionally keepalive pings every millisecond on the same id generator; wrongtype: answers of another message type (any of 10 tags, a ConnectResponse and a request message among them) bearing a pending id - the caller must get the malformed-message error and nobody else anything (F15, repaired); wrongtype-pong: an UpstreamCloseResponse bearing the id of the library's keepalive ping, in a child process - the process must survive and the keepalive loop close the connection. non-trivial = >=3 requests in flight at once and at least one cancellation or unknown id; distinct = distinct Coq case terms"
 	if err := w.Flush(*seed, *tier, rule, false, nil); err != nil {
 		fmt.Fprintln(os.Stderr, err)
 		os.Exit(2)
